@@ -55,6 +55,24 @@ func rowMirror(c interface{}, i int, complement bool) {
 	}
 }
 
+// rowStrand gives access to the strand a row of a container carries itself (not the container's).
+func rowStrand(c interface{}, i int) (get func() int, set func(int)) {
+	switch v := c.(type) {
+	case *alignment.Seq:
+		return func() int { return int(v.SubAnnotations[i].Strand) }, func(s int) { v.SubAnnotations[i].Strand = seq.Strand(s) }
+	case *alignment.QSeq:
+		return func() int { return int(v.SubAnnotations[i].Strand) }, func(s int) { v.SubAnnotations[i].Strand = seq.Strand(s) }
+	case *multi.Multi:
+		switch r := v.Row(i).(type) {
+		case *linear.Seq:
+			return func() int { return int(r.Strand) }, func(s int) { r.Strand = seq.Strand(s) }
+		case *linear.QSeq:
+			return func() int { return int(r.Strand) }, func(s int) { r.Strand = seq.Strand(s) }
+		}
+	}
+	return func() int { return 0 }, func(int) {}
+}
+
 func cloneOf(c interface{}) interface{} {
 	switch v := c.(type) {
 	case *linear.Seq:
